@@ -492,6 +492,10 @@ class ColorVisuals(Visuals):
         mask = np.asanyarray(mask)
         if key in self._data:
             self._data[key] = self._data[key][mask]
+        else:
+            # colors generated from the other kind of color
+            # were computed for the elements before masking
+            self._cache.delete(key)
 
 
 class VertexColor(Visuals):
